@@ -310,6 +310,24 @@ def gen_retry_policy(notes: list[str]) -> list[str]:
             sugar[f"{base}.{op}"] = target or "<missing>"
     for k, v in sugar.items():
         L.append(f"def sugar_{k.replace('.', '_').strip('_')} : String := {lean_str(v)}")
+    # every class of the module that defines an operator (`__and__`, `__or__`, `__add__`, their reflected / in-place forms):
+    # the sugar is defined once, on the three bases -- a subclass with an operator of its own is outside what the theorems cover
+    opdefs: list[str] = []
+    if tree is not None:
+        for n in ast.walk(tree):
+            if isinstance(n, ast.ClassDef):
+                for m in n.body:
+                    if isinstance(m, (ast.FunctionDef, ast.AsyncFunctionDef)) and m.name in (
+                            "__and__", "__or__", "__add__", "__rand__", "__ror__", "__radd__", "__iand__", "__ior__", "__iadd__"):
+                        opdefs.append(f"{n.name}.{m.name}")
+    L.append("def operatorDefs : List String := [" + ", ".join(lean_str(x) for x in sorted(opdefs)) + "]")
+    # unit conversion of every time argument
+    ts = _func(tree, "_to_seconds")
+    ts_src = "<missing>"
+    if ts is not None:
+        body = [n for n in ts.body if not (isinstance(n, ast.Expr) and isinstance(n.value, ast.Constant))]  # type: ignore[union-attr]
+        ts_src = re.sub(r"\s+", " ", " ; ".join(ast.unparse(n) for n in body))
+    L.append(f"def toSecondsBody : String := {lean_str(ts_src)}")
     # wait_chain index expression and the composed policy's next()
     chain = _func(tree, "wait_chain")
     idx_src = "<missing>"
